@@ -11,4 +11,5 @@ Extraction "../ocaml/c08/model.ml"
   parse_lookup ser_lookup dict_set parse_extra ser_extra parse_doubles ser_doubles parse_wave ser_wave
   parse_geokeys ser_geokeys parse_ascii ser_ascii parse_wkt ser_wkt parse_laszip ser_laszip
   find_class known_table class_spec vlr_factory kv_record kv_records normalise read_known write_known
-  wf_lookup_payload wf_geokeys_payload.
+  wf_lookup_payload wf_geokeys_payload
+  partial_reset write_file read_file write_file_known.
